@@ -23,6 +23,8 @@ TEXTS = collections.OrderedDict([
     ("sql-like", w(" CREATE TABLE zz  ( q1 int , q2 int )  ;", " drop it ;", " ALTER TABLE tt ADD cc  ( 1 ) ", " p , q  ( r )  ; d")),
     # the other comment marker inside the text: `--` inside /* */ (banner lines), `#` anywhere
     ("dashes", w(" ---- section ----", " see -- below", " p -- q ;", " # -- #")),
+    # nothing after the marker: a bare `--`, `#`, `/*` ... `*/`
+    ("empty", w("", "", "", "")),
 ])
 # thorough tier: more kinds of comment text
 TEXTS_THOROUGH = collections.OrderedDict([
